@@ -98,7 +98,9 @@ def scen (e : Env) : PM ScenCls := do
     | _ => failure)
   expect "tw"; let tw ← counted nat
   expect "ra"; let ra ← nat
-  pure ⟨agents, mons, compose, limit, tw, ra == 1⟩
+  expect "tsw"; let tsw ← counted nat
+  expect "rec"; let ri ← nat; let recs ← counted nat; let rf ← nat
+  pure ⟨agents, mons, compose, limit, tw, ra == 1, tsw, ri == 1, recs, rf == 1⟩
 
 inductive SMode | id | rev | rot (k : Nat) | swap
 
@@ -135,10 +137,8 @@ def job : PM Job := do
   expect "behs"; let behs ← counted (block e)
   expect "mons"; let mons ← counted (block e)
   expect "scens"; let scens ← counted (scen e)
-  expect "tsw"; let tsw ← counted nat
-  expect "rec"; let ri ← nat; let rn ← nat; let rf ← nat
   expect "sched"; let modes ← counted smode
-  pure ⟨cf, fuel, ⟨⟨conds, behs⟩, mons, scens, tsw, ri == 1, rn, rf == 1, maxSteps⟩, modes⟩
+  pure ⟨cf, fuel, ⟨⟨conds, behs⟩, mons, scens, maxSteps⟩, modes⟩
 
 def showCtx : Ctx → String
   | .comp => "co" | .mon => "mo" | .beh => "be" | .termWhen => "tw" | .termSim => "ts"
@@ -170,7 +170,7 @@ def showTerm : Term → String
   | .terminatedByBehavior => "terminatedByBehavior"
 
 def showAbort : Abort → String
-  | .rejected => "rejected" | .stuck => "stuck" | .error => "error"
+  | .stuck => "stuck" | .error => "error"
 
 def runJob (S : Sem) (j : Job) : String :=
   let sched : Nat → Nat → List Nat := fun t n =>
@@ -237,11 +237,11 @@ def handle : List String → String
   | "run" :: ts => match job.run ts with
     | some (j, []) => runJob Scenic.Gen.sem j
     | _ => "bad-op"
-  | "runsem" :: dyn :: mon :: ts => match job.run ts with   -- documented order, flags as given
-    | some (j, []) => runJob ⟨Phase.documented, dyn == "1", mon == "1"⟩ j
+  | "rundoc" :: ts => match job.run ts with   -- the documented phase order, whatever the source says
+    | some (j, []) => runJob Sem.documented j
     | _ => "bad-op"
   | ["wf", evs] => runSpec .start 0 (evs.splitOn ";")
-  | ["sem"] => s!"{decide (Scenic.Gen.sem.order = Phase.documented)} {Scenic.Gen.sem.dynReqAsTemporal} {Scenic.Gen.sem.monTermPropagates}"
+  | ["sem"] => s!"{decide (Scenic.Gen.sem.order = Phase.documented)} {Scenic.Gen.dynReqAsTemporal} {Scenic.Gen.monTermPropagates}"
   | ["secs", q, dt] => match parseRat q, parseRat dt with
     | some q, some dt => s!"{secToStepsF (ratToFloat q) (ratToFloat dt)} {secToStepsQ q dt}"
     | _, _ => "bad-op"
